@@ -162,8 +162,11 @@ def mutate(rng, root, layout, info, klass):
         if klass == 'stray-special':
             ops.append({'op': 'mkfifo', 'p': f})
         elif klass == 'stray-manifest-name':
-            txt = rng.choice([b'', b'DATA nothing 0\n', b'garbage \x00\xff'])
             sfx = mtext.suffix_of(f)
+            # (a plain file named Manifest holds text: non-UTF-8 bytes there are
+            # outside the domain of the properties)
+            txt = rng.choice([b'', b'DATA nothing 0\n', b'garbage \x01 text\n'] +
+                             ([b'garbage \x00\xff'] if sfx else []))
             if sfx and rng.random() < 0.7:
                 txt = mtext.compress(sfx, txt)
             ops.append({'op': 'write', 'p': f, 'c': common.spec_of(txt)})
